@@ -128,8 +128,50 @@ class Repo:
             self.modules[m.name] = m
         for m in self.modules.values():
             self._collect_defs(m, m.tree, prefix=m.name, cls=None, parent=None)
+        self._normalise_pre()
         self._apply_roles()
+        self._normalise_post()
         self._collect_attr_types()
+
+    def _normalise_pre(self):
+        """sa/normalize.py passes 1+2: inline helpers the pinned tree does not have, canonical dict loops (in-memory AST only)."""
+        from . import normalize as N
+        self.normalised: Dict[str, List[str]] = {}
+        if os.environ.get("VERIF_NO_NORMALIZE") or not N.vocab()["functions"]:
+            return
+        for m in self.modules.values():
+            if N.canonical_idioms(m.tree):
+                self.normalised.setdefault("idioms", []).append(m.name)
+        for q, fi in self.functions.items():
+            if isinstance(fi.node, ast.FunctionDef) and N.distribute_ifexp_returns(fi.node):
+                self.normalised.setdefault("conditional returns", []).append(q)
+        done = N.inline_new_helpers(self)
+        if done:
+            self.normalised["inlined helpers"] = done
+        for q, fi in self.functions.items():
+            if isinstance(fi.node, ast.FunctionDef) and N.canonical_dict_loops(fi.node):
+                self.normalised.setdefault("dict loops", []).append(q)
+
+    def _normalise_post(self):
+        """sa/normalize.py pass 3 (after role resolution, so canonical spellings are known), then roles once more."""
+        from . import normalize as N
+        if os.environ.get("VERIF_NO_NORMALIZE") or not N.vocab()["functions"]:
+            return
+        any_ = False
+        for q, fi in self.functions.items():
+            if isinstance(fi.node, ast.FunctionDef):
+                try:
+                    names = N.inline_new_locals(q, fi.node)
+                except AnalysisError:
+                    names = []
+                if names:
+                    self.normalised[f"inlined locals {q}"] = names
+                    any_ = True
+                    N.fuse_comprehensions(fi.node)
+                    if N.distribute_ifexp_returns(fi.node):
+                        self.normalised.setdefault("conditional returns", []).append(q)
+        if any_:
+            self._apply_roles()
 
     def _apply_roles(self):
         """Map differently spelled locals back to the canonical spelling the rules use (sa/roles.py); in-memory AST only."""
